@@ -165,8 +165,9 @@ Inductive event :=
 | EvPrepare (f : nat) (t : triple)             (* PREPARE frame written for flight f *)
 | EvPrepared (f : nat) (id : list Z) (cnt meta : Z)   (* RESULT prepared received for flight f *)
 | EvFailed (f : nat) (err : Z)                 (* flight f failed *)
-| EvSend (e : nat) (batch : bool) (host ks : key) (items : list (key * option (list Z) * Z))
-                                               (* EXECUTE / BATCH frame: per entry the statement, its prepared id, the number of values *)
+| EvSend (e : nat) (batch : bool) (host ks : key) (items : list (key * option (list Z * Z) * Z))
+                                               (* EXECUTE / BATCH frame: per entry the statement, its prepared id together with the token of the
+                                                  bind/result metadata the executor marshals and decodes with, the number of values *)
 | EvResult (e : nat) (r : result)              (* what the caller of executeQuery / executeBatch got *)
 | EvPanic.                                     (* nil dereference in evictPreparedID (ifp.preparedStatment.id) *)
 
@@ -243,9 +244,9 @@ Fixpoint batch_stmt_of_id (gs : list (option got)) (id : list Z) (acc : option k
   | Some g :: r => batch_stmt_of_id r id (if zlist_eqb (g_id g) id then Some (g_stmt g) else acc)
   end.
 
-Fixpoint send_items (ens : list entry) (gs : list (option got)) : list (key * option (list Z) * Z) :=
+Fixpoint send_items (ens : list entry) (gs : list (option got)) : list (key * option (list Z * Z) * Z) :=
   match ens, gs with
-  | en :: ens', g :: gs' => (e_stmt en, option_map g_id g, e_nvals en) :: send_items ens' gs'
+  | en :: ens', g :: gs' => (e_stmt en, option_map (fun g => (g_id g, g_meta g)) g, e_nvals en) :: send_items ens' gs'
   | _, _ => []
   end.
 
